@@ -45,7 +45,7 @@ func (row *Row) invokeRenderCallbacks(t *ATable, ec ErrorReceiver) {
 		if col != nil {
 			invokePropertyCallbacks(col.cellCallbacks, CB_AT_RENDER_POSTCELL, ptr, row.ErrorContainer)
 		}
-
+		invokePropertyCallbacks(t.tableCellCallbacks, CB_AT_RENDER_POSTCELL, ptr, ec)
 	}
 	invokePropertyCallbacks(row.rowItselfCallbacks, CB_AT_RENDER_POSTCELL, row, ec)
 
